@@ -579,6 +579,8 @@ impl MempoolInner {
                             .add(promotion_tx, current_nonce, &current_balances)
                     {
                         self.contained_txs.remove(&tx_id);
+                        self.comet_bft_removal_cache
+                            .add(tx_id, RemovalReason::InternalError);
                         self.metrics.increment_internal_logic_error();
                         error!(
                             address = %telemetry::display::base64(&address_bytes),
@@ -596,6 +598,8 @@ impl MempoolInner {
                             .add(demotion_tx, current_nonce, &current_balances)
                     {
                         self.contained_txs.remove(&tx_id);
+                        self.comet_bft_removal_cache
+                            .add(tx_id, RemovalReason::InternalError);
                         self.metrics.increment_internal_logic_error();
                         error!(
                             address = %telemetry::display::base64(&address_bytes),
